@@ -15,7 +15,6 @@ import (
 	"github.com/richardwilkes/toolbox/xmath/fixed"
 	"github.com/richardwilkes/toolbox/xmath/fixed/f128"
 	"github.com/richardwilkes/toolbox/xmath/fixed/f64"
-	"github.com/richardwilkes/toolbox/xmath/num"
 	"verifharness/hx"
 )
 
@@ -24,12 +23,12 @@ type cfg struct {
 	mult      int64 // 10^k, computed here (independent of the library)
 	libPlaces func() (int, int)
 	libMult   func() (int64, string)
-	run64  func(op string, a []string) string
-	run128 func(op string, a []string) string
-	flt64  func(op string, arg string) string
-	flt128 func(op string, arg string) string
-	fm64   func(op string, arg string) string
-	fm128  func(op string, arg string) string
+	run64     func(op string, a []string) string
+	run128    func(op string, a []string) string
+	flt64     func(op string, arg string) string
+	flt128    func(op string, arg string) string
+	fm64      func(op string, arg string) string
+	fm128     func(op string, arg string) string
 }
 
 var cfgs = map[string]*cfg{}
@@ -44,7 +43,7 @@ func register[T fixed.Dx](name string) {
 		places: k, mult: mult,
 		libPlaces: func() (int, int) { return f64.MaxDecimalDigits[T](), f128.MaxDecimalDigits[T]() },
 		libMult: func() (int64, string) {
-			return f64.Multiplier[T](), i128Big(f128.VerifC03Raw(f128.Multiplier[T]())).String()
+			return f64.Multiplier[T](), raw128(f128.Multiplier[T]()).String()
 		},
 		run64:  func(op string, a []string) string { return run64[T](k, op, a) },
 		run128: func(op string, a []string) string { return run128[T](k, op, a) },
@@ -85,25 +84,6 @@ func parseBig(s string) *big.Int {
 	v, ok := new(big.Int).SetString(s, 10)
 	if !ok {
 		panic("bad integer " + s)
-	}
-	return v
-}
-
-func toI128(s string) num.Int128 {
-	v := parseBig(s)
-	v.Mod(v, two128)
-	hi := new(big.Int).Rsh(v, 64).Uint64()
-	lo := new(big.Int).And(v, mask64).Uint64()
-	return num.VerifC03FromWords(hi, lo)
-}
-
-func i128Big(i num.Int128) *big.Int {
-	hi, lo := num.VerifC03Words(i)
-	v := new(big.Int).SetUint64(hi)
-	v.Lsh(v, 64)
-	v.Or(v, new(big.Int).SetUint64(lo))
-	if hi>>63 != 0 {
-		v.Sub(v, two128)
 	}
 	return v
 }
@@ -305,8 +285,8 @@ func as64[T fixed.Dx](kind string, f f64.Int[T]) string {
 // ---------------------------------------------------------------------------------------------------- f128
 
 func run128[T fixed.Dx](k int, op string, a []string) string {
-	p := func(i int) f128.Int[T] { return f128.VerifC03FromRaw[T](toI128(a[i])) }
-	o := func(v f128.Int[T]) string { return i128Big(f128.VerifC03Raw(v)).String() }
+	p := func(i int) f128.Int[T] { return mk128[T](parseBig(a[i])) }
+	o := func(v f128.Int[T]) string { return raw128(v).String() }
 	switch op {
 	case "add":
 		return o(p(0).Add(p(1)))
